@@ -119,11 +119,14 @@ def polarization_normalised(c):
 
 @contract("C06", "multi_channel", [IF + "ImageFormation._calculate_multiple_color_scattered_field", IF + "select_scatterer_by_illumination",
                                    SI + "prep_schema", "holopy.core.metadata:clean_concat", "holopy.core.metadata:dict_to_array"],
-          bounded="two illumination channels (labels in either order), 2x1 grid detector with an illumination axis", timeout_ms=60000)
+          bounded="two illumination channels (labels of each per-channel dictionary in either order, independently), 2x1 grid detector with an illumination axis", timeout_ms=60000)
 def multi_channel(c):
     """a calculation with two illumination channels (per-channel wavelength, polarization and per-channel scatterer index given as
     dictionaries) returns for each channel exactly the single-channel result for that channel's values - matched by label"""
     order = c.choice("label_order", [("red", "green"), ("green", "red")])
+    # the three per-channel dictionaries need not list the channels in the same order: matching is by label, never by position
+    pol_order = c.choice("polarization_label_order", [("red", "green"), ("green", "red")])
+    n_order = c.choice("index_label_order", [("red", "green"), ("green", "red")])
     lam = {"red": c.real("lam_red", pos=True, sample=(0.6, 0.7)), "green": c.real("lam_green", pos=True, sample=(0.5, 0.56))}
     nidx = {"red": c.real("n_red", pos=True, sample=(1.4, 1.6)), "green": c.real("n_green", pos=True, sample=(1.5, 1.7))}
     pol = {"red": (1, 0), "green": (0, 1)}
@@ -131,9 +134,9 @@ def multi_channel(c):
     cen = [c.real("cx", sample=(-1, 1)), c.real("cy", sample=(-1, 1)), c.real("cz", sample=(3, 9))]
     det = detector_grid((2, 1), 0.1, extra_dims={'illumination': list(order)})
     th = AbstractPointTheory()
-    sph = Sphere(n={k: nidx[k] for k in order}, r=r, center=cen)
+    sph = Sphere(n={k: nidx[k] for k in n_order}, r=r, center=cen)
     multi = c.call(calc_field, det, sph, medium_index=1.33, illum_wavelen={k: lam[k] for k in order},
-                   illum_polarization={k: pol[k] for k in order}, theory=th)
+                   illum_polarization={k: pol[k] for k in pol_order}, theory=th)
     c.ensures("channel-labels", sorted(multi.illumination.values) == ["green", "red"])
     single_det = detector_grid((2, 1), 0.1)
     for ch in ("red", "green"):
